@@ -204,49 +204,7 @@ def run(index: RepoIndex, rep) -> None:
     representation_switch(index, rep, 'C20.R3')
 
     # ---------------------------------------------------------------- R4
-    m = ge.methods.get('__init__')
-    if m is None:
-        raise AnalysisError('anchor vanished: GymEnvironment.__init__')
-    w = view(index, m, keep=('outer_space_to_gym_space',))[1]
-    op = m.node.args.args[1].arg
-    st = {src(e.target): e for e in w.events if e.kind == 'attrstore'}
-    from ..guards import none_truth, strip_iter
-    for attr, rattr in (('self.state_space', 'state_representation'),
-                        ('self.observation_space', 'observation_representation')):
-        evs = [e for e in w.events if e.kind == 'attrstore' and src(e.target) == attr]
-        term = f'{op}.{rattr}'
-        want = {True: 'None', False: f'outer_space_to_gym_space({term}.space)'}
-        got = {}
-        ok = bool(evs)
-        for e in evs:
-            t = none_truth(w.expand_formula(strip_iter(e.guard)), term)
-            if t is None:
-                # the guard also depends on the other representation (paths were split):
-                # judge it on the atoms about this one only
-                from ..guards import prop_atoms
-                f_ = w.expand_formula(strip_iter(e.guard))
-                t = {}
-                for isnone in (True, False):
-                    t[isnone] = _possible(f_, term, isnone)
-            v = src(w.expand(e.value)) if e.value is not None else 'None'
-            for isnone in (True, False):
-                if t[isnone]:
-                    got.setdefault(isnone, set()).add(v)
-        ok = ok and got == {k: {v} for k, v in want.items()}
-        rep.check(ok, 'C20.R4', GYM, 'GymEnvironment.__init__', m.node.lineno,
-                  '; '.join(f'{k}: {sorted(v)}' for k, v in sorted(got.items())),
-                  f'{attr} is not derived from {op}.{rattr}.space (or None when absent)',
-                  f'init {attr}')
-    e = st.get('self.action_space')
-    rep.check(e is not None and src(w.expand(e.value)) ==
-              f'gym.spaces.Discrete({op}.action_space.num_actions)', 'C20.R4', GYM,
-              'GymEnvironment.__init__', m.node.lineno, src(e.stmt) if e else '',
-              'the gym action space is not Discrete(number of actions)', 'init action space')
-    na = index.func(SPACES, 'ActionSpace.num_actions')
-    b = na.body()
-    rep.check(value_text(index, na) == 'len(self.actions)', 'C20.R4', SPACES,
-              'ActionSpace.num_actions', na.node.lineno, src(b[-1]),
-              'num_actions is not len(actions)', 'num_actions')
+    constructor_spaces(index, rep, 'C20.R4')
 
     # ---------------------------------------------------------------- R5
     check_gym_space(index, rep, 'C20.R5')
@@ -415,6 +373,56 @@ def check_gym_space(index: RepoIndex, rep, rule: str) -> None:
     rep.check(ok, rule, GYM, 'outer_space_to_gym_space', f.node.lineno,
               src(rets[0].value)[:200] if rets else '', f'outer_space_to_gym_space {why}',
               'gym space conversion')
+
+
+def constructor_spaces(index: RepoIndex, rep, rule: str) -> None:
+    """GymEnvironment.__init__ derives each advertised gym space from the representation
+    of the same name (C20.R4; the gym-layer facet of C15)"""
+    from ..view import value_text, view
+    ge = index.cls(GYM, 'GymEnvironment')
+    m = ge.methods.get('__init__')
+    if m is None:
+        raise AnalysisError('anchor vanished: GymEnvironment.__init__')
+    w = view(index, m, keep=('outer_space_to_gym_space',))[1]
+    op = m.node.args.args[1].arg
+    st = {src(e.target): e for e in w.events if e.kind == 'attrstore'}
+    from ..guards import none_truth, strip_iter
+    for attr, rattr in (('self.state_space', 'state_representation'),
+                        ('self.observation_space', 'observation_representation')):
+        evs = [e for e in w.events if e.kind == 'attrstore' and src(e.target) == attr]
+        term = f'{op}.{rattr}'
+        want = {True: 'None', False: f'outer_space_to_gym_space({term}.space)'}
+        got = {}
+        ok = bool(evs)
+        for e in evs:
+            t = none_truth(w.expand_formula(strip_iter(e.guard)), term)
+            if t is None:
+                # the guard also depends on the other representation (paths were split):
+                # judge it on the atoms about this one only
+                from ..guards import prop_atoms
+                f_ = w.expand_formula(strip_iter(e.guard))
+                t = {}
+                for isnone in (True, False):
+                    t[isnone] = _possible(f_, term, isnone)
+            v = src(w.expand(e.value)) if e.value is not None else 'None'
+            for isnone in (True, False):
+                if t[isnone]:
+                    got.setdefault(isnone, set()).add(v)
+        ok = ok and got == {k: {v} for k, v in want.items()}
+        rep.check(ok, rule, GYM, 'GymEnvironment.__init__', m.node.lineno,
+                  '; '.join(f'{k}: {sorted(v)}' for k, v in sorted(got.items())),
+                  f'{attr} is not derived from {op}.{rattr}.space (or None when absent)',
+                  f'init {attr}')
+    e = st.get('self.action_space')
+    rep.check(e is not None and src(w.expand(e.value)) ==
+              f'gym.spaces.Discrete({op}.action_space.num_actions)', rule, GYM,
+              'GymEnvironment.__init__', m.node.lineno, src(e.stmt) if e else '',
+              'the gym action space is not Discrete(number of actions)', 'init action space')
+    na = index.func(SPACES, 'ActionSpace.num_actions')
+    b = na.body()
+    rep.check(value_text(index, na) == 'len(self.actions)', rule, SPACES,
+              'ActionSpace.num_actions', na.node.lineno, src(b[-1]),
+              'num_actions is not len(actions)', 'num_actions')
 
 
 def representation_switch(index: RepoIndex, rep, rule: str) -> None:
